@@ -462,6 +462,67 @@ def rule_reset(ctx: Ctx) -> None:
     ctx.floor("C04-4", 8)
 
 
+def rule_round2(ctx: Ctx) -> None:
+    """Second-round rules: reset() primes in construction order with the replay last; a breakpoint treats only None as 'no value';
+    what schedule() consults during a run is maintained alike by both loops."""
+    prog = ctx.prog
+    init = prog.func(SIM, "Simulation.__init__")
+    reset = prog.func(CTL, "SimulationControl.reset")
+
+    def order(fn, prefix):
+        out = []
+        for st in fn.node.body:
+            txt = unparse(st)
+            for tag, probe in (("sources", f"in {prefix}_sources"), ("probes", f"in {prefix}_probes"), ("faults", f"{prefix}_fault_schedule.start("), ("replay", "_replay_pre_run_events(")):
+                if probe in txt and tag not in out and "for " + "" in txt + "for " :
+                    if tag in ("sources", "probes") and not isinstance(st, ast.For):
+                        continue
+                    out.append(tag)
+        return out
+    o_i, o_r = order(init, "self."), order(reset, "self._sim.")
+    ok = o_i == ["sources", "probes", "faults"] and o_r == ["sources", "probes", "faults", "replay"]
+    ctx.ob("C04-4", "G4", reset, "priming order", ok, f"reset() re-primes in the order of construction (sources, probes, fault schedule) and replays the user's pre-run events last, "
+           f"so every re-created event gets the same relative creation index as in the first run (construction: {o_i}; reset: {o_r})")
+    # breakpoints: only `is None` means "nothing to compare"
+    mb = prog.func(BRK, "MetricBreakpoint.should_break")
+    mf = ctx.flow(mb)
+    bad = []
+    for st in walk_stmts(mb.node.body):
+        if isinstance(st, ast.Return) and isinstance(st.value, ast.Constant) and st.value.value is False:
+            fs = {k[:3] for k in mf.facts_at(node_of(mf.cfg, st))}
+            if not any(f[0] == "is" and f[2] == "None" for f in fs):
+                bad.append(f"`return False` at line {st.lineno} under {sorted(fs)[:3]}")
+    cmp_ret = [st for st in walk_stmts(mb.node.body) if isinstance(st, ast.Return) and isinstance(st.value, ast.Call)]
+    ctx.ob("C04-3", "G1", mb, cmp_ret[0] if cmp_ret else None, not bad and len(cmp_ret) == 1, "MetricBreakpoint compares every value that is not None with the threshold (0, 0.0, False and empty containers are readings, not 'missing')"
+           + ("" if not bad else " — " + bad[0]))
+    # state consulted by schedule() while a run is in progress
+    sch = prog.func(SIM, "Simulation.schedule")
+    guards = set()
+    for st in walk_stmts(sch.node.body):
+        if isinstance(st, ast.If):
+            guards |= {path_of(x) for x in ast.walk(st.test) if isinstance(x, ast.Attribute) and (path_of(x) or "").startswith("self._")}
+    slow = LoopInfo(ctx, prog.func(SIM, "Simulation._run_loop"))
+    fast = LoopInfo(ctx, prog.func(SIM, "Simulation._execute_until"))
+
+    def in_loop_writes(L):
+        out = set()
+        for st in walk_stmts(L.while_stmt.body):
+            if isinstance(st, (ast.Assign, ast.AugAssign)):
+                for t in (st.targets if isinstance(st, ast.Assign) else [st.target]):
+                    if (path_of(t) or "").startswith("self._"):
+                        out.add(path_of(t))
+            for c in calls_in(st) if not isinstance(st, (ast.If, ast.While, ast.For, ast.Try, ast.With)) else []:
+                if (path_of(c.func) or "").startswith("self."):
+                    for callee in prog.resolve_call(L.fn, c):
+                        out |= {"self." + w for w in ctx.effects.transitive(callee).writes}
+        return out
+    ws, wf = in_loop_writes(slow), in_loop_writes(fast)
+    skew = sorted(g for g in guards if g and (g in ws) != (g in wf))
+    ctx.ob("C04-1", "G4", sch, "schedule() guard state", bool(guards) and not skew,
+           f"every attribute schedule() tests {sorted(g for g in guards if g)} is maintained the same way inside both event loops (one that the fast loop keeps in a local and writes back only at the end would read stale during a run)"
+           + ("" if not skew else f" — maintained per event by only one loop: {skew}"))
+
+
 def rule_resume_tiebreak(ctx: Ctx) -> None:
     """C04-5: re-entering run() (pause/step/resume) keeps one creation-order domain — shared with C01-8."""
     from .c01 import _counter_continues
@@ -486,9 +547,13 @@ def run(ctx: Ctx) -> None:
     ctx.guarded(rule_observer_purity)
     ctx.guarded(rule_protocol)
     ctx.guarded(rule_reset)
+    ctx.guarded(rule_round2)
 
 
 MUTANTS = [
+    ("reset-replays-before-priming", CTL, ["        # Replay events that were scheduled before the first run()\n        self._sim._replay_pre_run_events()\n\n", "        # Reset clock\n"], ["", "        self._sim._replay_pre_run_events()\n        # Reset clock\n"], "C04-4"),
+    ("metric-breakpoint-falsy-is-missing", BRK, "        value = getattr(entity, self.attribute, None)\n        if value is None:\n            return False", "        value = getattr(entity, self.attribute, None)\n        if not value:\n            return False", "C04-3"),
+    ("schedule-guard-on-processed-count", SIM, "        if not self._is_running:\n            self._save_event_specs(events)", "        if self._events_processed == 0:\n            self._save_event_specs(events)", "C04-1"),
     ("fast-cancel-not-counted", SIM, "                events_cancelled += 1\n                continue", "                continue", "C04-1"),
     ("slow-processed-not-counted", SIM, "        self._events_processed += 1\n        self._last_event = event", "        self._last_event = event", "C04-1"),
     ("fast-guard-strict", SIM, "current_time.nanoseconds <= end_time_ns", "current_time.nanoseconds < end_time_ns", "C04-1"),
